@@ -21,6 +21,7 @@ Full statement of the property on the model (`FullC11` below) and what is proved
 yields target ids (`OrdOk`).
 -/
 import Apko.Proofs.Lemmas.SbomGen
+import Apko.Proofs.Lemmas.SbomFuel
 
 namespace Apko.C11
 open Apko Apko.Sbom
@@ -216,6 +217,67 @@ theorem pinned_replace_dangles :
 theorem copy_closed {src tgt d : Doc} {t0 : List Id} (h : copyElements src tgt t0 = .ok d) (hc : Closed tgt)
     (h1 : tgt.describes.length ≤ 1) : Closed d :=
   (copyElements_inv ⟨hc, h1⟩ h).1.closed
+
+/-! ## the model's fuel is never exhausted -/
+
+theorem mergeLics_err {s t : List (Text × Text)} {e : Err} (h : mergeLics s t = .error e) : e = .licConflict := by
+  induction s generalizing t with
+  | nil => simp [mergeLics] at h
+  | cons x xs ih =>
+    simp only [mergeLics] at h
+    split at h
+    · split at h
+      · cases h; rfl
+      · exact ih h
+    · exact ih h
+
+theorem locate_err {fs : SbomDir} {stems : List Text} {e : Err} (h : locate fs stems = .error e) : e = .sbomIsDir := by
+  induction stems with
+  | nil => simp [locate] at h
+  | cons s rest ih =>
+    simp only [locate] at h
+    split at h
+    · exact ih h
+    · cases h; rfl
+    · cases h
+
+theorem processInternal_never_fuel {fs : SbomDir} {ord : List Id → List Id} {doc : Doc} {n v : Text} :
+    processInternal fs ord doc n v ≠ .error .fuel := by
+  intro h
+  unfold processInternal at h
+  split at h
+  · next e hl => cases h; have := locate_err hl; cases this
+  · cases h
+  · cases h
+  · cases h
+  · dsimp only at h
+    split at h
+    · next e hc => cases h; exact copyElements_never_fuel _ _ _ hc
+    · split at h
+      · next e hm => cases h; have := mergeLics_err hm; cases this
+      · cases h
+
+/-- the closure loop of `copySBOMElements` is modelled with `rels.length + 1` sweeps of fuel; the fuel
+always suffices, so `Generate`'s model never answers the artificial `fuel` error -/
+theorem generate_never_fuel (o : Opts) (fs : SbomDir) (ord : List Id → List Id) :
+    generate o fs ord ≠ .error .fuel := by
+  have key : ∀ (apks : List Apk) (doc : Doc), addApks fs ord (nonceOf o.imageDigest) apks doc ≠ .error .fuel := by
+    intro apks
+    induction apks with
+    | nil => intro doc h; simp [addApks] at h
+    | cons a as ih =>
+      intro doc h
+      simp only [addApks] at h
+      split at h
+      · next e ha => cases h; exact processInternal_never_fuel ha
+      · exact ih _ h
+  intro h
+  unfold generate at h
+  split at h
+  · cases h
+  · split at h
+    · next e ha => cases h; exact key _ _ ha
+    · cases h
 
 /-! ## apk elements, image and layers -/
 
